@@ -1,5 +1,6 @@
 import NimaVerif.Model.SExp
 import NimaVerif.Drv.Names
+import NimaVerif.Drv.Scope
 /-!
 Line-protocol driver: one request per line on stdin, one reply per line on stdout.
 Each topic has its own handler module `NimaVerif/Drv/<Topic>.lean` exporting
@@ -9,7 +10,8 @@ Only import-free modules (Model/, Gen/, Drv/) may be imported here, so that the 
 open Nima
 
 def handlers : List (SExp → Option SExp) := [
-  Nima.Drv.Names.handle
+  Nima.Drv.Names.handle,
+  Nima.Drv.Scope.handle
 ]
 
 def dispatch (req : SExp) : SExp :=
